@@ -421,6 +421,13 @@ class Project(MessageHandler):
                     else:
                         # Normal finish-to-start: predecessor has a successor
                         has_fs_successor.add(pred.fullId)
+                        if not pred.leaf():
+                            # A container ends with its last leaf: everything inside it has this
+                            # successor too (unless the dependent task sits inside it itself)
+                            prefix = pred.fullId + "."
+                            if not str(task.fullId).startswith(prefix):
+                                for inner in pred.all():
+                                    has_fs_successor.add(inner.fullId)
 
         def propagate_end_to_children(task: Any, container_end: Optional[Any]) -> None:
             """Recursively propagate end constraint down the task tree."""
